@@ -19,6 +19,7 @@ def sh(cmd, cwd=None, timeout=3600):
 
 
 def verify(seed):
+    seed = os.path.abspath(seed)
     wt = tempfile.mkdtemp(prefix="seedwt_")
     os.rmdir(wt)
     rc, out = sh(["git", "-C", REPO, "worktree", "add", "--detach", wt, "HEAD"])
